@@ -21,6 +21,14 @@ WF = ('(%(c)s.state == 1 or %(c)s.state == 2 or %(c)s.state == 3) and '
       '(%(c)s.state == 2 ==> (not isnone(%(c)s.size) and %(c)s.size > 0 and len(%(c)s.chunk) < %(c)s.size)) and '
       '(%(c)s.state == 1 ==> ((isnone(%(c)s.size) or %(c)s.size == 0) and %(c)s.chunk.find(b\'\\r\\n\') < 0))')
 X = '(old(self.chunk) + raw)'
+CLV = "int_dec(self.headers[b'content-length'][1])"
+# parser representation invariant (what _process_body relies on to terminate):
+#   a body is expected only with a usable, positive Content-Length value in the header map
+PWF = ("(self._content_expected ==> (not isnone(self.headers) and self.headers.has(b'content-length') and "
+       "int_dec_ok(self.headers[b'content-length'][1]) and %s > 0))" % CLV)
+#   nothing of the body exists before the headers are complete, and a Content-Length body in progress is still short
+BWF = ("((self.state <= 3 ==> isnone(self.body)) and "
+       "((self._content_expected and not self._is_chunked_encoded and self.state <= 5 and not isnone(self.body)) ==> len(self.body) < %s))" % CLV)
 
 
 def build(reg):
@@ -106,7 +114,8 @@ def body_contracts(reg):
     return [reg.contract(
         PF, 'HttpParser._process_body', self_cls='HttpParser', params={'raw': 'mv'}, result=('tuple', 'bool', 'mv'),
         requires=[('state', 'self.state == 4 or self.state == 5'),
-                  ('chunk-parser-well-formed', 'isnone(self.chunk) or (%s)' % (WF % {'c': 'self.chunk'}))],
+                  ('chunk-parser-well-formed', 'isnone(self.chunk) or (%s)' % (WF % {'c': 'self.chunk'})),
+                  ('content-length-usable-when-expected', PWF), ('body-still-short', BWF)],
         modifies=['self.state', 'self.body'] + CMOD, raise_modifies=['self.state', 'self.body'] + CMOD,
         cases=[('content-length', CLF.replace('old(', '(')), ('chunked', 'self._is_chunked_encoded'),
                ('other', 'not self._is_chunked_encoded and not (%s)' % CLF.replace('old(', '('))],
@@ -119,8 +128,10 @@ def body_contracts(reg):
                  ('rest-is-a-suffix', 'raw.endswith(result[1])'),
                  ('state', 'self.state == 4 or self.state == 5 or self.state == 6'),
                  ('chunk-parser-well-formed-after', 'isnone(self.chunk) or (%s)' % (WF % {'c': 'self.chunk'})),
-                 ('flags-kept', 'unchanged(self._is_chunked_encoded, self._content_expected)')],
-        raises={'ValueError': [], 'KeyError': []})]
+                 ('flags-kept', 'unchanged(self._is_chunked_encoded, self._content_expected)'),
+                 ('more-means-progress', 'result[0] ==> len(result[1]) < len(raw)'),
+                 ('body-still-short-after', BWF)],
+        raises={'ValueError': []})]
 
 
 def driver_contracts(reg):
@@ -137,13 +148,19 @@ def driver_contracts(reg):
                  ensures=[('version-known', 'not isnone(self.version)')], raises={'Exception': []},
                  note='PROXY protocol v1 line (not part of the framing argument): sets the version or raises')
     HMOD = ['self.headers', 'self._content_expected', 'self._is_chunked_encoded']
-    reg.contract(PF, 'HttpParser._process_header', self_cls='HttpParser', params={'raw': 'bytes'}, assumed=True,
-                 modifies=HMOD, raise_modifies=HMOD, raises={'ValueError': []},
-                 note='one field line into the header map (its content: C08/C02); int() of a bad Content-Length raises')
+    T = []
+    T.append(reg.contract(
+        PF, 'HttpParser._process_header', self_cls='HttpParser', params={'raw': 'bytes'},
+        requires=[('content-length-usable-when-expected', PWF)],
+        modifies=HMOD, raise_modifies=HMOD,
+        ensures=[('content-length-usable-when-expected', PWF),
+                 ('some-field-stored', 'not isnone(self.headers) and len(self.headers) > 0')],
+        raises={'ValueError': []},
+        note='one field line into the header map; int() of a bad Content-Length raises (the map may then hold the bad value: '
+             'the exception leaves parse(), the parser is not used again)'))
     reg.contract(PF, 'HttpParser.set_url', self_cls='HttpParser', params={'url': 'bytes', 'allowed_url_schemes': ('opt', ('list', 'bytes'))},
                  assumed=True, modifies=['self.host', 'self.port', 'self.path'], raise_modifies=['self.host', 'self.port', 'self.path'],
                  raises={'Exception': []}, note='request-target parsing: C14')
-    T = []
     CONS = 'pre_raw[:len(pre_raw) - len(raw)]'
     STEP_POST = [('rest-is-a-suffix', 'raw.endswith(result[1])'),
                  ('no-complete-line-nothing-consumed', 'raw.find(%s) < 0 ==> (result[1] == raw and not result[0] and self.state == old(self.state))' % CRLF),
@@ -152,12 +169,14 @@ def driver_contracts(reg):
     STEP_INV = ['pre_raw.endswith(raw)', 'len(raw) < len(pre_raw) ==> %s.endswith(%s)' % (CONS, CRLF)]
     T.append(reg.contract(
         PF, 'HttpParser._process_headers', self_cls='HttpParser', params={'raw': 'mv'}, result=('tuple', 'bool', 'mv'),
-        requires=[('state', 'self.state == 2 or self.state == 3')],
+        requires=[('state', 'self.state == 2 or self.state == 3'), ('content-length-usable-when-expected', PWF)],
         modifies=HMOD + ['self.state'], raise_modifies=HMOD + ['self.state'],
         ensures=STEP_POST + [('state', 'self.state == 2 or self.state == 3 or self.state == 4'),
+                             ('content-length-usable-when-expected', PWF),
+                             ('more-means-progress', 'result[0] ==> len(result[1]) < len(raw)'),
                              ('stops-only-when-done', 'self.state == 4 or len(result[1]) == 0 or result[1].find(%s) < 0' % CRLF)],
         raises={'ValueError': []},
-        loops={0: LoopSpec(inv=STEP_INV + ['self.state == 2 or self.state == 3',
+        loops={0: LoopSpec(inv=STEP_INV + ['self.state == 2 or self.state == 3', PWF,
                                            'len(raw) == len(pre_raw) ==> self.state == old(self.state)'],
                            modifies=['raw', 'parts', 'line', 'self.state'] + HMOD, snapshot=['raw'], decreases='len(raw)')}))
     LMOD = ['self.method', 'self._is_https_tunnel', 'self.version', 'self.code', 'self.reason', 'self.state',
@@ -168,7 +187,8 @@ def driver_contracts(reg):
         requires=[('state', 'self.state == 1'), ('type', 'self.type == 1 or self.type == 2')],
         modifies=LMOD, raise_modifies=LMOD,
         ensures=STEP_POST + [('state', 'self.state == 1 or self.state == 2'),
-                             ('line-received-only-by-consuming-a-line', 'self.state == 2 ==> len(result[1]) < len(raw)')],
+                             ('line-received-only-by-consuming-a-line', 'self.state == 2 ==> len(result[1]) < len(raw)'),
+                             ('more-means-progress', 'result[0] ==> len(result[1]) < len(raw)')],
         raises={'Exception': []},
         loops={0: LoopSpec(inv=STEP_INV + ['self.state == 1'],
                            modifies=['raw', 'parts', 'line', 'self.protocol.version'], snapshot=['raw'], decreases='len(raw)')}))
@@ -180,7 +200,8 @@ def driver_contracts(reg):
         PF, 'HttpParser.parse', self_cls='HttpParser', params={'raw': 'mv', 'allowed_url_schemes': ('opt', ('list', 'bytes'))},
         requires=[('state', 'self.state >= 1 and self.state <= 6'), ('type', 'self.type == 1 or self.type == 2'),
                   ('chunk-parser-well-formed', CWF),
-                  ('buffer-holds-no-complete-line', '(self.state <= 3 and not isnone(self.buffer)) ==> self.buffer.find(%s) < 0' % CRLF)],
+                  ('buffer-holds-no-complete-line', '(self.state <= 3 and not isnone(self.buffer)) ==> self.buffer.find(%s) < 0' % CRLF),
+                  ('content-length-usable-when-expected', PWF), ('body-still-short', BWF)],
         modifies=PMOD, raise_modifies=PMOD,
         ensures=[('size', 'self.total_size == old(self.total_size) + len(raw)'),
                  ('unconsumed-tail-kept', 'isnone(self.buffer) or (len(self.buffer) > 0 and %s.endswith(self.buffer))' % B),
@@ -193,9 +214,11 @@ def driver_contracts(reg):
                   'self.state <= 3 ==> (REST.find(%s) < 0 and (len(REST) == len(%s) or %s[:len(%s) - len(REST)].endswith(%s)))'.replace(
                       'REST', "(b'' if isnone(self.buffer) else self.buffer)") % (CRLF, B, B, B, CRLF)),
                  ('state', 'self.state >= 1 and self.state <= 6'),
-                 ('chunk-parser-well-formed-after', CWF)],
+                 ('chunk-parser-well-formed-after', CWF),
+                 ('content-length-usable-when-expected', PWF), ('body-still-short-after', BWF)],
         raises={'Exception': [('size', 'self.total_size == old(self.total_size) + len(raw)')]},
-        loops={0: LoopSpec(inv=['pre_raw.endswith(raw)', 'self.state >= 1 and self.state <= 6', CWF,
+        loops={0: LoopSpec(decreases='len(raw) + (1 if more else 0)',
+                           inv=['pre_raw.endswith(raw)', 'self.state >= 1 and self.state <= 6', CWF, PWF, BWF,
                                 'self.total_size == old(self.total_size) + size', 'isnone(self.buffer)',
                                 'size == 0 ==> (not more and self.state == old(self.state) and raw == pre_raw)',
                                 '(self.state <= 3 and not more) ==> raw.find(%s) < 0' % CRLF,
@@ -207,11 +230,11 @@ def driver_contracts(reg):
 
 def bounded_checks(reg, tier, seed):
     from . import parser_sweep
-    return [parser_sweep.sweep(tier, seed)]
+    return [parser_sweep.sweep(tier, seed), parser_sweep.hostile(tier, seed)]
 
 
 CROSSCHECK = ['find_http_line', 'ChunkParser.process', 'HttpParser._process_body', 'ChunkParser.parse',
-              'HttpParser._process_headers', 'HttpParser._process_line', 'HttpParser.parse']
+              'HttpParser._process_headers', 'HttpParser._process_line', 'HttpParser.parse', 'HttpParser._process_header']
 
 
 def crosscheck_gens(reg):
@@ -289,5 +312,10 @@ def crosscheck_gens(reg):
     def chunk_parse(g, rnd):
         o, a = chunk_process(g, rnd)
         return o, {'raw': memoryview(a['raw'] + rnd.choice([b'', b'3\r\nabc\r\n', b'0\r\n\r\n', b'\r\n0\r\n\r\nTAIL']))}
-    return {'ChunkParser.process': chunk_process, 'HttpParser._process_body': process_body, 'ChunkParser.parse': chunk_parse,
+    def header_step(g, rnd):
+        pr, _ = fed_parser(rnd)
+        line = rnd.choice([b'Content-Length', b'content-length', b'Transfer-Encoding', b'X', b'', b'Host']) + rnd.choice([b':', b': ', b'', b' :']) + \
+            rnd.choice([b'5', b'0', b'-3', b'x', b'chunked', b'CHUNKED', b'', b' 7 ', b'identity'])
+        return pr, {'raw': line}
+    return {'HttpParser._process_header': header_step, 'ChunkParser.process': chunk_process, 'HttpParser._process_body': process_body, 'ChunkParser.parse': chunk_parse,
             'HttpParser._process_headers': headers_step, 'HttpParser._process_line': line_step, 'HttpParser.parse': parse}
